@@ -155,7 +155,7 @@ fn opt4() -> Vec<(Option<i64>, Option<i64>, Option<i64>, Option<i64>)> {
 }
 
 /// every command variant on key `a` (second key `b`), every boolean / option field both ways
-fn all_variants(rng: &mut Rng, a: &str, b: &str, with_single: bool) -> Vec<Command> {
+pub(crate) fn all_variants(rng: &mut Rng, a: &str, b: &str, with_single: bool) -> Vec<Command> {
     let a = a.to_string();
     let b = b.to_string();
     let bools = [false, true];
@@ -378,7 +378,7 @@ fn all_variants(rng: &mut Rng, a: &str, b: &str, with_single: bool) -> Vec<Comma
 }
 
 /// one instance of the variants the sweep does not execute (for the coverage table only)
-fn not_executed_samples() -> Vec<Command> {
+pub(crate) fn not_executed_samples() -> Vec<Command> {
     vec![
         Command::Eval { script: "return 1".into(), keys: vec![], args: vec![] },
         Command::EvalSha { sha1: "0".into(), keys: vec![], args: vec![] },
